@@ -263,7 +263,9 @@ impl SeedTab {
             let mask = if w == 8 { u64::MAX } else { (1u64 << (8 * w)) - 1 };
             let cur = get(&self.bytes, off, w, self.lay.big_endian);
             let start = out.len();
-            for v in &vals {
+            // 64-bit fields (Memory64 sizes and base RVA, addresses): the boundary values of that width as well
+            let wide = [u64::MAX, 1 << 63, u64::MAX - 7];
+            for v in vals.iter().chain(if w == 8 { wide.iter() } else { [].iter() }) {
                 let tv = v & mask;
                 if tv != cur && !out[start..].iter().any(|x: &(u8, u64)| x.1 == tv) {
                     out.push((w as u8, tv));
